@@ -947,7 +947,12 @@ def cone_predicates(p, outcome, calls, M, A, pos):
             bad.append((None, 'ConeCyl.lb pair %d: (M + lam*A) v != 0 on the free amplitudes, lam = %r, backward error %.2e'
                         % (i, lam, r / max(den, 1e-300))))
             break
-    mu, posl = exact_spectrum(M, A, act)
+    try:
+        mu, posl = exact_spectrum(M, A, act)
+    except np.linalg.LinAlgError:
+        # the stiffness-side matrix of this shell is not positive definite on its free amplitudes (e.g. the indefinite cone stiffness of
+        # fsdt_donnell_bcn, finding C16-fsdt-donnell-bcn-cone-not-psd): outside the hypothesis of C05, the ordering clause is not judged
+        return bad
     if len(posl) >= p['num'] and posl[0] > 1 + 1e-6 and not bad:
         kk = p['num']
         while kk and posl[kk - 1] > 1e8:       # multipliers beyond what the shifted transform resolves are not compared
